@@ -679,3 +679,29 @@ package rueidis
 //@   ensures [C19 only-a-moved-redirect-re-points-a-slot] mode != RedirectMove ==> c.wslots == old(c.wslots)
 //@   ensures [C19 a-redirect-without-a-slot-re-points-nothing] slot == 16384 ==> c.wslots == old(c.wslots)
 //@   ensures [C19 a-moved-redirect-touches-only-its-own-slot] forall k int :: (0 <= k && k < 16384 && k != slot) ==> c.wslots[k] == old(c.wslots[k])
+
+// ---------------------------------------------------------------------------------------------
+// C47 — connection setup (pipe.go _newPipe, sentinel.go newSentinelOpt). What the setup batch contains is pinned down at
+// the point where it is turned into commands (NewMultiCompleted#1 = the RESP3 batch): HELLO 3 first, carrying AUTH with
+// the configured or dynamically supplied credentials — a user name alone is enough to authenticate, a password alone
+// authenticates as "default", neither means no AUTH — and SETNAME when a client name is configured; then, in this
+// order and each exactly when configured: INFO SERVER, CLIENT TRACKING ON ..., SELECT db.
+//@ func _newPipe
+//@   option opaque-pkgs=github.com/redis/rueidis/internal/cmds
+//@   option timeout=90
+//@   modifies *
+//@   let H = arg0[0]
+//@   let A = ite(username != "" || password != "", 3, 0)
+//@   let J = 1 + ite(option.EnableReplicaAZInfo && option.AZFromInfo, 1, 0)
+//@   assert [C47 the-batch-starts-with-the-hello-command] at NewMultiCompleted#1: len(arg0) >= 1 && len(H) >= 2
+//@   assert [C47 hello-3-comes-first] at NewMultiCompleted#1: H[0] == "HELLO" && H[1] == "3"
+//@   assert [C47 a-configured-user-name-always-authenticates] at NewMultiCompleted#1: username != "" ==> (len(H) >= 5 && H[2] == "AUTH" && H[3] == username && H[4] == password)
+//@   assert [C47 a-password-alone-authenticates-as-default] at NewMultiCompleted#1: (username == "" && password != "") ==> (len(H) >= 5 && H[2] == "AUTH" && H[3] == "default" && H[4] == password)
+//@   assert [C47 no-credentials-no-auth] at NewMultiCompleted#1: (username == "" && password == "") ==> (len(H) == 2 + ite(option.ClientName != "", 2, 0))
+//@   assert [C47 the-client-name-is-set-in-hello] at NewMultiCompleted#1: option.ClientName != "" ==> (len(H) == 4 + A && H[2 + A] == "SETNAME" && H[3 + A] == option.ClientName)
+//@   assert [C47 tracking-is-switched-on-unless-the-cache-is-disabled] at NewMultiCompleted#1: !option.DisableCache ==> (len(arg0) > J && len(arg0[J]) >= 3 && arg0[J][0] == "CLIENT" && arg0[J][1] == "TRACKING" && arg0[J][2] == "ON")
+//@   assert [C47 the-configured-database-is-selected] at NewMultiCompleted#1: option.SelectDB != 0 ==> (len(arg0) > J + ite(option.DisableCache, 0, 1) && len(arg0[J + ite(option.DisableCache, 0, 1)]) == 2 && arg0[J + ite(option.DisableCache, 0, 1)][0] == "SELECT" && arg0[J + ite(option.DisableCache, 0, 1)][1] == strconv.Itoa(option.SelectDB))
+
+// connections to sentinels use the sentinel's own credentials, client name, dialer and TLS settings, database 0
+//@ func newSentinelOpt
+//@   ensures [C47 sentinel-connections-use-the-sentinel-settings] result != nil && result.Username == opt.Sentinel.Username && result.Password == opt.Sentinel.Password && result.ClientName == opt.Sentinel.ClientName && result.SelectDB == 0
